@@ -506,6 +506,30 @@ def run_config(cfg: dict) -> list[tuple[str, str]]:
                 probs.append(('rgb565-rb-swap', f'{cfg["thumb"]} thumbnail: read-back pixels are the quantisation with R and B exchanged'))
             else:
                 probs.append((f'thumbnail-mismatch-{cfg["thumb"].lower()}', 'thumbnail pixels are not the quantisation of what was saved'))
+    # ---- the saved file read lazily and saved again WITHOUT loading it: every stored level and the thumbnail must come from
+    # the file (save() regenerates "cleared" levels first; a frame that still has its file source is not cleared). This is
+    # the read -> save -> read path of a tool that only edits metadata; with explicit (non-averaged) levels any regeneration shows.
+    if not swapped and keys2:
+        try:
+            v3 = VTF.read(io.BytesIO(b1))
+            buf3 = io.BytesIO()
+            v3.save(buf3, sheet_seq_version=cfg['sheet_ver'])
+            v4 = VTF.read(io.BytesIO(buf3.getvalue()))
+            v4.load()
+        except Exception as e:
+            probs.append((f'lazy-resave-raises-{type(e).__name__}', f'read (lazy) -> save -> read raised {type(e).__name__}: {e}'))
+        else:
+            for k in sorted(keys2, key=str):
+                if k not in v4._frames or bytes(v4._frames[k]._data) != bytes(v2._frames[k]._data):
+                    probs.append(('lazy-resave-changes-pixels', f'frame {k}: a file read lazily and saved again without load() stores other '
+                                  f'pixels than the file it was read from (mode {cfg["mode"]})'))
+                    break
+            else:
+                if cfg['thumb'] != 'NONE' and bytes(v4._low_res._data) != bytes(v2._low_res._data):
+                    probs.append(('lazy-resave-changes-thumbnail', 'a file read lazily and saved again without load() stores another thumbnail'))
+                elif buf3.getvalue() != b1:
+                    i = next((i for i, (x, y) in enumerate(zip(b1, buf3.getvalue())) if x != y), min(len(b1), len(buf3.getvalue())))
+                    probs.append(('lazy-resave-differs', f'read (lazy) -> save gives a different file (first difference at byte {i})'))
     # ---- storing again changes nothing
     buf2 = io.BytesIO()
     try:
